@@ -18,10 +18,12 @@ import (
 	"math/big"
 	"os"
 	"path/filepath"
+	"regexp"
 	"runtime"
 	"sort"
 	"strconv"
 	"strings"
+	"sync"
 	"time"
 
 	"com.tuntun.rangers/node/src/common"
@@ -88,6 +90,7 @@ type Scenario struct {
 	Castor    string   `json:"castor,omitempty"`
 	Txs       []TxS    `json:"txs"`
 	Situation string   `json:"situation,omitempty"`
+	Config    string   `json:"config,omitempty"` // "" = dev table with the flag vector; "mainnet" / "robin" = the real schedule at this height
 	// searcher only: run the N executions under these chain heights (common.GetBlockHeight)
 	// with the dev fork table instead of the flag string
 	GlobalHeights []uint64 `json:"globalHeights,omitempty"`
@@ -95,14 +98,23 @@ type Scenario struct {
 
 // ---------------------------------------------------------------- stubs
 
-type world struct{ group *types.Group }
+type world struct {
+	mu     sync.Mutex
+	groups map[string]*types.Group
+}
 
-var theWorld = &world{}
+var theWorld = &world{groups: map[string]*types.Group{}}
+
+func (w *world) get(id []byte) *types.Group {
+	w.mu.Lock()
+	defer w.mu.Unlock()
+	return w.groups[string(id)]
+}
 
 type stubG struct{}
 
 func (stubG) GetAvailableGroupsByMinerId(height uint64, minerId []byte) []*types.Group { return nil }
-func (stubG) GetGroupById(id []byte) *types.Group                                   { return theWorld.group }
+func (stubG) GetGroupById(id []byte) *types.Group                                   { return theWorld.get(id) }
 
 type stubF struct{ stubG }
 
@@ -123,7 +135,33 @@ func pick(b byte) uint64 {
 
 var devConfig common.ChainConfig
 
+var histConfigs = map[string]common.ChainConfig{}
+
+func boolBit(b bool) byte {
+	if b {
+		return '1'
+	}
+	return '0'
+}
+
 func applyFlags(sc *Scenario, global uint64, useDev bool) {
+	if cfg, ok := histConfigs[sc.Config]; ok && !useDev {
+		// the real activation schedule; the flag vector handed to the model is what the real
+		// IsProposalNNN() answer at this process height
+		common.LocalChainConfig = cfg
+		common.SetBlockHeight(global)
+		sc.Flags = string([]byte{boolBit(common.IsProposal006()), boolBit(common.IsProposal007()), boolBit(common.IsProposal016()),
+			boolBit(common.IsProposal018()), boolBit(common.IsProposal021()), boolBit(common.IsProposal023())})
+		sc.P026 = common.IsProposal026()
+		sc.P004 = cfg.Proposal004Block == sc.Height
+		sc.P010 = cfg.Proposal010Block == sc.Height
+		sc.P019 = cfg.Proposal019Block == sc.Height
+		sc.P025 = 0
+		if sc.Height >= cfg.Proposal025Block {
+			sc.P025 = cfg.Proposal025Block
+		}
+		return
+	}
 	if useDev {
 		common.LocalChainConfig = devConfig
 		common.SetBlockHeight(global)
@@ -245,14 +283,15 @@ func mkBlock(sc *Scenario) *types.Block {
 	if sc.Castor != "" {
 		h.Castor = unhex(sc.Castor)
 	}
-	theWorld.group = nil
 	if len(sc.Group) > 0 {
-		h.GroupId = []byte{7, 7}
+		h.GroupId = common.Sha256([]byte("group" + sc.Name))[:6]
 		g := &types.Group{Id: h.GroupId, Header: &types.GroupHeader{}}
 		for _, id := range sc.Group {
 			g.Members = append(g.Members, unhex(id))
 		}
-		theWorld.group = g
+		theWorld.mu.Lock()
+		theWorld.groups[string(h.GroupId)] = g
+		theWorld.mu.Unlock()
 	}
 	h.Hash = common.BytesToHash(common.Sha256([]byte(sc.Name + strconv.FormatUint(sc.Height, 10))))
 	b := &types.Block{Header: h}
@@ -309,6 +348,82 @@ func (o outcome) fingerprint() string {
 	return sb.String()
 }
 
+
+// ---------------------------------------------------------------- independent references for the leaf conversions
+//
+// The op lines carry leaf values computed by go-rangers (HexToAddress, HexStringToAddress, FromHex,
+// StrToBigInt, getTotalReward).  A regression in one of them would make model and implementation
+// agree on garbage, so each is cross-checked against a reference written here with the standard
+// library only; a disagreement turns the block's answer into ORACLE-DIFF (a broken tie).
+
+var oracleDiffs []string
+
+func refFromHex(s string) []byte {
+	if len(s) > 1 {
+		if s[0:2] == "0x" || s[0:2] == "0X" {
+			s = s[2:]
+		}
+		if len(s)%2 == 1 {
+			s = "0" + s
+		}
+		b, _ := hex.DecodeString(s) // bytes decoded before the first bad digit, like the repo's Hex2Bytes
+		return b
+	}
+	return nil
+}
+
+func refAddr(b []byte) (a common.Address) {
+	if len(b) > 20 {
+		b = b[len(b)-20:]
+	}
+	copy(a[:], b)
+	return
+}
+
+func refFeeAddr(s string) (a common.Address) {
+	if len(s) < 2 || s[:2] != "0x" {
+		return
+	}
+	b, _ := hex.DecodeString(s[2:])
+	if len(b) == 20 {
+		copy(a[:], b)
+	}
+	return
+}
+
+var decimalRe = regexp.MustCompile(`^[+-]?([0-9]+\.?[0-9]*|\.[0-9]+)([eE][+-]?[0-9]{1,2})?$`)
+
+// refAmount: "" -> 0; plain decimals (optional exponent) -> floor(value * 10^18), negative -> x;
+// ok=false when the reference makes no claim about this spelling
+func refAmount(s string) (string, bool) {
+	if s == "" {
+		return "0", true
+	}
+	if len(s) > 30 || !decimalRe.MatchString(s) {
+		return "", false
+	}
+	r, ok := new(big.Rat).SetString(s)
+	if !ok {
+		return "", false
+	}
+	if r.Sign() < 0 {
+		return "x", true
+	}
+	r.Mul(r, new(big.Rat).SetInt(new(big.Int).Exp(big.NewInt(10), big.NewInt(18), nil)))
+	return new(big.Int).Quo(r.Num(), r.Denom()).String(), true
+}
+
+func refTotalReward(height uint64) float64 {
+	ep := height / common.GetBlocksPerEpoch()
+	return common.TotalRPGSupply * math.Pow(1-common.ReleaseRate, float64(ep)) * common.ReleaseRate / float64(common.GetBlocksPerEpoch())
+}
+
+func oracleCheck(what, impl, ref string) {
+	if impl != ref && len(oracleDiffs) < 5 {
+		oracleDiffs = append(oracleDiffs, fmt.Sprintf("%s:impl=%s,ref=%s", what, impl, ref))
+	}
+}
+
 // ---------------------------------------------------------------- op emission (corr)
 
 type tgt struct {
@@ -333,6 +448,10 @@ func decodeExtra(extra string) (kind string, ts []tgt) {
 		if err == nil && v.Sign() >= 0 {
 			a = v.String()
 		}
+		if ra, ok := refAmount(td.Balance); ok {
+			oracleCheck("StrToBigInt("+strconv.Quote(td.Balance)+")", a, ra)
+		}
+		oracleCheck("HexToAddress("+strconv.Quote(k)+")", a20(common.HexToAddress(k)), a20(refAddr(refFromHex(k))))
 		ts = append(ts, tgt{k, common.HexToAddress(k), a})
 	}
 	sort.Slice(ts, func(i, j int) bool { return ts[i].key < ts[j].key })
@@ -388,6 +507,17 @@ func observeOpaque(sc *Scenario, wl []common.Address) {
 		if len(o.receipts) == 0 {
 			continue
 		}
+		// the prefix must have been executed in the order it has inside the full block (with a Less
+		// that is no strict weak order, sorting a sub-list can come out differently): otherwise
+		// there is no observation and the driver answers `unmodelled`
+		same := len(o.txs) == k+1
+		for j := 0; same && j <= k; j++ {
+			same = o.txs[j].Hash == full.txs[j].Hash
+		}
+		if !same {
+			observedBody = map[string]string{}
+			return
+		}
 		rc := o.receipts[len(o.receipts)-1]
 		ev := 0
 		for _, h := range o.evicted {
@@ -411,6 +541,9 @@ func txTokens(r *hx.Rng, x TxS, watch map[common.Address]bool) string {
 	fa := common.HexStringToAddress(x.Source)
 	watch[src], watch[fa] = true, true
 	sn := new(big.Int).SetBytes(common.FromHex(x.Source))
+	oracleCheck("HexToAddress(source "+strconv.Quote(x.Source)+")", a20(src), a20(refAddr(refFromHex(x.Source))))
+	oracleCheck("HexStringToAddress("+strconv.Quote(x.Source)+")", a20(fa), a20(refFeeAddr(x.Source)))
+	oracleCheck("FromHex("+strconv.Quote(x.Source)+")", sn.String(), new(big.Int).SetBytes(refFromHex(x.Source)).String())
 	var sb strings.Builder
 	fmt.Fprintf(&sb, " %s %d %d %d %s %s %s %s", x.Hash, x.Req, x.Nonce, x.Type, hx.Hex([]byte(x.Source)), a20(src), a20(fa), hx.Hex(sn.Bytes()))
 	if x.Type == types.TransactionTypeMinerRefund {
@@ -423,6 +556,13 @@ func txTokens(r *hx.Rng, x TxS, watch map[common.Address]bool) string {
 			amt = strconv.FormatUint(v, 10)
 		}
 		return sb.String() + " r " + amt + " " + hx.Hex(common.FromHex(d.MinerId))
+	}
+	if x.Type == types.TransactionTypeMinerAdd {
+		var m types.Miner
+		if err := json.Unmarshal([]byte(x.Data), &m); err != nil {
+			return sb.String() + " j " + hx.Hex([]byte(x.Data))
+		}
+		return sb.String() + " a " + hx.Hex(m.Id) + " " + strconv.FormatUint(m.Stake, 10)
 	}
 	if ob, ok := observedBody[x.Hash]; ok {
 		return sb.String() + ob
@@ -539,6 +679,7 @@ func rewardTokens(sc *Scenario, watch map[common.Address]bool, wesc map[escKey]b
 	if sc.Castor != "" {
 		castor = sc.Castor
 	}
+	oracleCheck("getTotalReward", strconv.FormatUint(math.Float64bits(service.GetTotalReward(sc.Height)), 16), strconv.FormatUint(math.Float64bits(refTotalReward(sc.Height)), 16))
 	s := fmt.Sprintf(" F %d %d %s", math.Float64bits(service.GetTotalReward(sc.Height)), common.GetRewardBlocks(), castor)
 	if len(sc.Group) == 0 {
 		return s + " x"
@@ -574,6 +715,7 @@ func msgClass(m string) string {
 }
 
 func emitScenario(out *hx.Out, r *hx.Rng, sc *Scenario) {
+	oracleDiffs = nil
 	watch := map[common.Address]bool{common.FeeAccount: true, common.Address{}: true}
 	wesc := map[escKey]bool{}
 	out.Emit("reset", "ok")
@@ -653,6 +795,9 @@ func emitScenario(out *hx.Out, r *hx.Rng, sc *Scenario) {
 		typeOf[common.BytesToHash(unhex(x.Hash))] = x.Type
 	}
 	out.Do(op, func() string {
+		if len(oracleDiffs) > 0 {
+			return "ORACLE-DIFF " + strings.ReplaceAll(strings.Join(oracleDiffs, ";"), " ", "_")
+		}
 		o := execOnce(sc, root, t)
 		var ev, rc []string
 		for _, h := range o.evicted {
@@ -660,7 +805,7 @@ func emitScenario(out *hx.Out, r *hx.Rng, sc *Scenario) {
 		}
 		for _, x := range o.receipts {
 			msg := hx.Hex([]byte(x.Msg))
-			if typeOf[x.TxHash] == types.TransactionTypeMinerRefund {
+			if t := typeOf[x.TxHash]; t == types.TransactionTypeMinerRefund || t == types.TransactionTypeMinerAdd {
 				msg = "-" // message text of miner transactions is not modelled
 			}
 			rc = append(rc, fmt.Sprintf("%s:%d:%s", hex.EncodeToString(x.TxHash.Bytes()), x.Status, msg))
@@ -759,6 +904,22 @@ func amountStr(r *hx.Rng, balWei *big.Int, fee *big.Int) string {
 
 func randHash(r *hx.Rng) string {
 	b := r.Bytes(32)
+	switch r.Intn(24) { // boundary encodings random bytes (almost) never produce
+	case 0:
+		b[0] = 0 // leading zero byte
+	case 1:
+		b[0], b[1], b[2] = 0, 0, 0
+	case 2:
+		for i := range b {
+			b[i] = 0xff
+		}
+		b[31] = byte(r.Intn(256))
+	case 3:
+		for i := range b {
+			b[i] = 0
+		}
+		b[31] = byte(r.Intn(4))
+	}
 	if r.Chance(1, 6) {
 		for i := 0; i < 31; i++ {
 			b[i] = 0x11 // shared prefix: order decided by the last byte
@@ -786,6 +947,9 @@ func genFlags(r *hx.Rng) string {
 // balance in the middle; sometimes escrow entries due at this height and a reward group.
 func genScenario(r *hx.Rng, i int, allowOpaque bool) *Scenario {
 	sc := &Scenario{Name: fmt.Sprintf("gen-%d", i), Height: uint64(20 + r.Intn(1000)), Flags: genFlags(r), P026: r.Bool(), P004: r.Chance(1, 10)}
+	if r.Chance(1, 8) { // reward-period and epoch boundaries (NextRewardHeight = ceil(h/n)*n)
+		sc.Height = common.GetRewardBlocks()*uint64(1+r.Intn(3)) + uint64(r.Intn(3)) - 1
+	}
 	fee := feeOf(sc)
 	na := 1 + r.Intn(4)
 	bals := map[string]*big.Int{}
@@ -955,14 +1119,30 @@ func genScenario(r *hx.Rng, i int, allowOpaque bool) *Scenario {
 		np := r.Pick(0, 1, 2, 3, 5)
 		for k := 0; k < np; k++ {
 			acct := poolAddrs[r.Intn(len(poolAddrs))]
-			m := MinerS{Id: fmt.Sprintf("a%03d", k) + "00", Type: 1, Stake: uint64(2000 * (1 + r.Intn(5))), Account: acct,
+			stake := uint64(2000 * (1 + r.Intn(5)))
+			switch r.Intn(10) { // float64(uint64) rounding boundaries, thirds
+			case 0:
+				stake = 9007199254740993 // 2^53 + 1: not representable, rounds to even
+			case 1:
+				stake = 9007199254740995
+			case 2:
+				stake = 1152921504606846977 // 2^60 + 1
+			case 3:
+				stake = 2001
+			case 4:
+				stake = 1999 // below the minimum: add-stake may bring it to exactly 2000 / 2001
+			case 5:
+				stake = 1500
+			}
+			m := MinerS{Id: fmt.Sprintf("a%03d", k) + "00", Type: 1, Stake: stake, Account: acct,
 				ApplyHeight: uint64(r.Pick(0, 0, 0, int(sc.Height), int(sc.Height)+1)), Status: byte(r.Pick(0, 0, 0, 0, 2))}
 			sc.Miners = append(sc.Miners, m)
 		}
 		nv := r.Pick(0, 1, 2, 3, 4)
 		for k := 0; k < nv; k++ {
 			acct := poolAddrs[r.Intn(len(poolAddrs))]
-			m := MinerS{Id: fmt.Sprintf("b%03d", k) + "00", Type: 0, Stake: uint64(400 * (1 + r.Intn(5))), Account: acct}
+			m := MinerS{Id: fmt.Sprintf("b%03d", k) + "00", Type: 0, Stake: uint64(r.Pick(400, 800, 1200, 2000, 399, 200)), Account: acct,
+				Status: byte(r.Pick(0, 0, 0, 1, 2))}
 			sc.Miners = append(sc.Miners, m)
 			if r.Chance(4, 5) {
 				sc.Group = append(sc.Group, m.Id)
@@ -1060,6 +1240,30 @@ func genScenario(r *hx.Rng, i int, allowOpaque bool) *Scenario {
 			}
 			sc.Txs = append(sc.Txs, x)
 		}
+	}
+	// miner add-stake transactions: zero, small, threshold-crossing and unaffordable amounts,
+	// unknown ids, broken payloads (the id is always present: without it the executor needs a signature)
+	for k := r.Pick(0, 0, 1, 2, 3); k > 0 && len(sc.Miners) > 0 && len(sc.Txs) < 12; k-- {
+		m := sc.Miners[r.Intn(len(sc.Miners))]
+		src := sc.Accounts[r.Intn(len(sc.Accounts))].Addr
+		delta := uint64(r.Pick(0, 1, 1, 2, 5, 100, 9007199254740993))
+		min := uint64(400)
+		if m.Type == 1 {
+			min = 2000
+		}
+		if r.Chance(1, 2) && m.Stake <= min {
+			delta = min - m.Stake + uint64(r.Intn(2)) // exactly at, or one above, the minimum
+		}
+		id := unhex(m.Id)
+		if r.Chance(1, 8) {
+			id = []byte{0xde, 0xad}
+		}
+		d, _ := json.Marshal(types.Miner{Id: id, Stake: delta})
+		x := TxS{Source: "0x" + src, Type: 5, Hash: hex.EncodeToString(r.Bytes(32)), Data: string(d)}
+		if r.Chance(1, 12) {
+			x.Data = "[1"
+		}
+		sc.Txs = append(sc.Txs, x)
 	}
 	// receipts and observed EVM steps are matched to transactions by hash: keep hashes unique
 	seenHash := map[string]bool{}
@@ -1281,6 +1485,92 @@ func genEvmScenario(r *hx.Rng, i int) *Scenario {
 	return sc
 }
 
+
+// genHistorical: the same kind of block under the REAL mainnet / robin activation schedule at a
+// height right below, at and above one of the proposal activations (process height = height-1,
+// as on the normal path).  interpretedOnly = only transaction kinds the model interprets under
+// every flag vector (transfers, unknown types) and no reward group.
+func genHistorical(r *hx.Rng, i int, interpretedOnly bool) *Scenario {
+	env := []string{"mainnet", "robin"}[r.Intn(2)]
+	c := histConfigs[env]
+	acts := []uint64{c.Proposal002Block, c.Proposal003Block, c.Proposal004Block, c.Proposal005Block, c.Proposal006Block, c.Proposal007Block,
+		c.Proposal008Block, c.Proposal009Block, c.Proposal010Block, c.Proposal011Block, c.Proposal012Block, c.Proposal013Block, c.Proposal015Block,
+		c.Proposal016Block, c.Proposal017Block, c.Proposal018Block, c.Proposal019Block, c.Proposal020Block, c.Proposal021Block, c.Proposal023Block,
+		c.Proposal025Block, c.Proposal026Block, c.Proposal027Block}
+	var h uint64
+	for tries := 0; tries < 50; tries++ {
+		a := acts[r.Intn(len(acts))]
+		if a < 10 || a == maxU {
+			continue
+		}
+		h = a + uint64(r.Intn(4)) - 1 // a-1 .. a+2: process height a-2 .. a+1
+		if interpretedOnly && h <= c.Proposal002Block+1 {
+			continue // before Proposal002 balance writes are not journaled: revert semantics differ from the model
+		}
+		break
+	}
+	if h == 0 {
+		h = c.Proposal023Block + 1
+	}
+	sc := genScenario(r, i, !interpretedOnly)
+	sc.Name = fmt.Sprintf("hist-%s-%d-%d", env, h, i)
+	sc.Config, sc.Height = env, h
+	sc.Escrow, sc.DiffCount, sc.Working = nil, 0, 0
+	if interpretedOnly {
+		sc.Miners, sc.Group, sc.Castor = nil, nil, ""
+		var keep []TxS
+		for _, x := range sc.Txs {
+			if x.Type != 4 && x.Type != 5 && x.Type != 200 {
+				keep = append(keep, x)
+			}
+		}
+		sc.Txs = keep
+	}
+	return sc
+}
+
+
+// boundaryFamilyCorr: deterministic small-scope family for the correspondence, emitted before
+// anything random: one miner transaction per scenario with stake / amount exactly at, one below and
+// one above the minimum stake, for both miner types and every status.
+func boundaryFamilyCorr() []*Scenario {
+	src := poolAddrs[0]
+	var res []*Scenario
+	n := 0
+	for _, typ := range []byte{0, 1} {
+		min := uint64(400)
+		if typ == 1 {
+			min = 2000
+		}
+		for _, status := range []byte{0, 1, 2} {
+			for _, stake := range []uint64{min - 1, min, min + 1} {
+				for _, delta := range []uint64{0, 1, 2} {
+					n++
+					d, _ := json.Marshal(types.Miner{Id: []byte{0xa1, byte(n)}, Stake: delta})
+					res = append(res, &Scenario{Name: fmt.Sprintf("addstake-boundary-%d", n), Height: 100, Flags: "111111", P026: true,
+						Accounts: []Acct{{src, e18(50).String(), 0}},
+						Miners:   []MinerS{{Id: hex.EncodeToString([]byte{0xa1, byte(n)}), Type: typ, Stake: stake, Account: src, Status: status}},
+						Txs:      []TxS{{Source: "0x" + src, Type: 5, Hash: hex.EncodeToString(common.Sha256([]byte{1, byte(n)})), Data: string(d)}}})
+				}
+			}
+		}
+		for _, stake := range []uint64{min, min + 1, 2 * min} {
+			for _, left := range []uint64{0, min - 1, min, min + 1} {
+				if left > stake {
+					continue
+				}
+				n++
+				d, _ := json.Marshal(map[string]string{"Amount": strconv.FormatUint(stake-left, 10), "MinerId": "0x" + hex.EncodeToString([]byte{0xa2, byte(n)})})
+				res = append(res, &Scenario{Name: fmt.Sprintf("refund-boundary-%d", n), Height: 100, Flags: "111111", P026: true,
+					Accounts: []Acct{{src, e18(50).String(), 0}},
+					Miners:   []MinerS{{Id: hex.EncodeToString([]byte{0xa2, byte(n)}), Type: typ, Stake: stake, Account: src}},
+					Txs:      []TxS{{Source: "0x" + src, Type: 4, Hash: hex.EncodeToString(common.Sha256([]byte{2, byte(n)})), Data: string(d)}}})
+			}
+		}
+	}
+	return res
+}
+
 // ---------------------------------------------------------------- direct site ops
 
 func emitSiteOps(out *hx.Out, r *hx.Rng, i int) {
@@ -1479,7 +1769,19 @@ func hasSelfTarget(sc *Scenario) bool {
 // with GOMAXPROCS varied; returns the distinct fingerprints.
 // outcomes seen before / after the poisoning of the process in the last nfold
 var lastBefore, lastAfter map[string]bool
+var perHeight map[uint64]map[string]bool // GlobalHeights scenarios: outcomes per process height
 var poisonRng *hx.Rng
+
+func markHeight(sc *Scenario, i int, fp string) {
+	if len(sc.GlobalHeights) == 0 {
+		return
+	}
+	g := sc.GlobalHeights[i%len(sc.GlobalHeights)]
+	if perHeight[g] == nil {
+		perHeight[g] = map[string]bool{}
+	}
+	perHeight[g][fp] = true
+}
 
 func mark(i, n int, fp string) {
 	if i < n/2 {
@@ -1489,7 +1791,26 @@ func mark(i, n int, fp string) {
 	}
 }
 
+// uniqHashes: outcomes, receipts and observations are matched to transactions by hash
+func uniqHashes(sc *Scenario) {
+	seen := map[string]bool{}
+	for i := range sc.Txs {
+		for k := 0; seen[sc.Txs[i].Hash]; k++ {
+			h := common.Sha256([]byte(sc.Txs[i].Hash + strconv.Itoa(k)))
+			sc.Txs[i].Hash = hex.EncodeToString(h)
+		}
+		seen[sc.Txs[i].Hash] = true
+	}
+}
+
 func nfold(sc *Scenario, n int) map[string]int {
+	uniqHashes(sc)
+	// the parent state is written under the scenario's own configuration (InsertMiner consults flags)
+	if len(sc.GlobalHeights) > 0 {
+		applyFlags(sc, sc.GlobalHeights[0], true)
+	} else {
+		applyFlags(sc, sc.Height-1, false)
+	}
 	root, t := buildParent(sc)
 	hasContract := false
 	for _, x := range sc.Txs {
@@ -1501,6 +1822,13 @@ func nfold(sc *Scenario, n int) map[string]int {
 	defer func() { sc.Situation = orig }()
 	res := map[string]int{}
 	lastBefore, lastAfter = map[string]bool{}, map[string]bool{}
+	perHeight = map[uint64]map[string]bool{}
+	// retention: the block object and the outcome of one early run are kept; the same block object
+	// (already sorted in place, same transaction objects) is executed again later, and the kept
+	// receipts / evicted list are re-read after all later executions — they must not have changed
+	var keptBlock *types.Block
+	var keptOut *outcome
+	keptFp := ""
 	procs := []int{1, 2, 4, runtime.NumCPU()}
 	for i := 0; i < n; i++ {
 		if i == n/2 && len(sc.GlobalHeights) == 0 && poisonRng != nil {
@@ -1531,11 +1859,69 @@ func nfold(sc *Scenario, n int) map[string]int {
 			fp := hx.Guard(func() string { return execOnce(sc, root2, t2).fingerprint() })
 			res[fp]++
 			mark(i, n, fp)
+			markHeight(sc, i, fp)
+			continue
+		}
+		if i == 1 && len(sc.GlobalHeights) == 0 {
+			fp := hx.Guard(func() string {
+				st, _ := account.NewAccountDB(root, t)
+				keptBlock = mkBlock(sc)
+				r0, ev, txs, rc := core.VerifC01Execute(st, keptBlock, situationOf(sc))
+				keptOut = &outcome{r0, ev, rc, st, txs}
+				return keptOut.fingerprint()
+			})
+			keptFp = fp
+			res[fp]++
+			mark(i, n, fp)
+			continue
+		}
+		if i%8 == 5 && keptBlock != nil && sc.Situation == orig {
+			// reference: fresh objects carrying the same transactions in the order the kept block has
+			// NOW (sort.Sort worked in place; with a Less that is no strict weak order, sorting a second
+			// time may legitimately give another order — that is another input list, not aliasing)
+			ordered := *sc
+			ordered.Txs = nil
+			byHash := map[string]TxS{}
+			for _, x := range sc.Txs {
+				byHash[x.Hash] = x
+			}
+			for _, tx := range keptBlock.Transactions {
+				ordered.Txs = append(ordered.Txs, byHash[hex.EncodeToString(tx.Hash.Bytes())])
+			}
+			want := hx.Guard(func() string { return execOnce(&ordered, root, t).fingerprint() })
+			fp := hx.Guard(func() string {
+				st, _ := account.NewAccountDB(root, t)
+				r0, ev, txs, rc := core.VerifC01Execute(st, keptBlock, situationOf(sc))
+				return outcome{r0, ev, rc, st, txs}.fingerprint()
+			})
+			if fp != want && !strings.HasPrefix(want, "PANIC") {
+				res["REUSED-BLOCK-OBJECT "+fp]++
+			}
 			continue
 		}
 		fp := hx.Guard(func() string { return execOnce(sc, root, t).fingerprint() })
 		res[fp]++
 		mark(i, n, fp)
+		markHeight(sc, i, fp)
+	}
+	if keptOut != nil && !strings.HasPrefix(keptFp, "PANIC") {
+		// inputs mutated after the fact must not reach results handed out earlier
+		for _, tx := range keptBlock.Transactions {
+			tx.ExtraData, tx.Data, tx.Source = "mutated", "mutated", "0xmutated"
+		}
+		// a shadow of the block (same transactions under other hashes) is executed in between: a
+		// result that aliases a buffer reused by the next execution now reads the shadow's values
+		shadow := *sc
+		shadow.Txs = nil
+		for _, x := range sc.Txs {
+			y := x
+			y.Hash = hex.EncodeToString(common.Sha256([]byte("shadow" + x.Hash)))
+			shadow.Txs = append(shadow.Txs, y)
+		}
+		hx.Guard(func() string { execOnce(&shadow, root, t); return "" })
+		if now := keptOut.fingerprint(); now != keptFp {
+			res["RETAINED-RESULT-CHANGED "+now]++
+		}
 	}
 	runtime.GOMAXPROCS(runtime.NumCPU())
 	return res
@@ -1544,8 +1930,39 @@ func nfold(sc *Scenario, n int) map[string]int {
 // classify names the *class* of a violation from the scenario and from what differs between the
 // outcomes (fingerprint = "root=… ev=… rc=…").
 func classify(sc *Scenario, res map[string]int) (string, string) {
+	plain := 0
+	for k := range res {
+		if !strings.HasPrefix(k, "CONCURRENT ") && !strings.HasPrefix(k, "SEQUENTIAL ") && !strings.HasPrefix(k, "REUSED-BLOCK-OBJECT") &&
+			!strings.HasPrefix(k, "RETAINED-RESULT-CHANGED") && !strings.HasPrefix(k, "PARENT-ROOT-DIFFERS") {
+			plain++
+		}
+	}
+	// the special phases only name the class when the ordinary repetitions agree among themselves
+	if plain <= 1 {
+		for k := range res {
+			if strings.HasPrefix(k, "CONCURRENT ") {
+				return "concurrent-execution-differs", "a block executed while other blocks are being executed by other goroutines gave another result than alone"
+			}
+		}
+		for k := range res {
+			if strings.HasPrefix(k, "REUSED-BLOCK-OBJECT") || strings.HasPrefix(k, "RETAINED-RESULT-CHANGED") {
+				return "aliasing-across-executions", "executing the same block object again, or mutating the inputs afterwards, changed a result (shared mutable state across executions)"
+			}
+		}
+	}
 	if len(sc.GlobalHeights) > 0 {
-		return "flags-from-process-chain-height", "proposal flags are read from common.GetBlockHeight() (the node's own chain top), not from the header being executed"
+		// the recorded finding only explains a difference BETWEEN process heights; runs at one and the
+		// same process height that disagree are something else and must not hide behind its key
+		single := true
+		for _, m := range perHeight {
+			if len(m) > 1 {
+				single = false
+			}
+		}
+		if single {
+			return "flags-from-process-chain-height", "proposal flags are read from common.GetBlockHeight() (the node's own chain top), not from the header being executed"
+		}
+		return "nondeterministic-execution", "runs at the same process height gave different results"
 	}
 	if len(lastBefore) == 1 && len(lastAfter) == 1 {
 		same := true
@@ -1560,6 +1977,12 @@ func classify(sc *Scenario, res map[string]int) (string, string) {
 	}
 	rest := map[string]bool{}
 	for k := range res {
+		if strings.HasPrefix(k, "PARENT-ROOT-DIFFERS") {
+			continue
+		}
+		for _, pre := range []string{"CONCURRENT ", "SEQUENTIAL ", "REUSED-BLOCK-OBJECT ", "RETAINED-RESULT-CHANGED "} {
+			k = strings.TrimPrefix(k, pre)
+		}
 		if i := strings.Index(k, " ev="); i >= 0 {
 			rest[k[i:]] = true
 		} else {
@@ -1710,6 +2133,92 @@ func forceMinerTxs(r *hx.Rng, sc *Scenario) {
 	}
 }
 
+
+// concurrentBatch (evidence, not proof): K different blocks are executed by K goroutines at the same
+// time — as a node does when it casts in a goroutine while verifying incoming blocks — and every
+// result must equal the one the same block gives when executed alone.
+func concurrentBatch(r *hx.Rng, k, rounds int, report func(sc *Scenario, res map[string]int)) int {
+	var scs []*Scenario
+	for i := 0; i < k; i++ {
+		var sc *Scenario
+		if i%2 == 0 {
+			sc = genEvmScenario(r, 9000+i)
+		} else {
+			sc = genScenario(r, 9000+i, true)
+			widen(r, sc)
+		}
+		sc.Name = fmt.Sprintf("conc-%d-%s", i, sc.Name)
+		sc.Flags, sc.P026, sc.P004, sc.P010, sc.P019, sc.P025, sc.Config = "111111", true, false, false, false, 0, ""
+		scs = append(scs, sc)
+	}
+	applyFlags(scs[0], 1000, false)
+	type prep struct {
+		root common.Hash
+		t    account.AccountDatabase
+		seq  string
+	}
+	ps := make([]prep, k)
+	for i, sc := range scs {
+		root, t := buildParent(sc)
+		ps[i] = prep{root, t, hx.Guard(func() string { return execOnce(sc, root, t).fingerprint() })}
+		if again := hx.Guard(func() string { return execOnce(sc, root, t).fingerprint() }); again != ps[i].seq {
+			report(sc, map[string]int{ps[i].seq: 1, again: 1}) // not even sequentially repeatable
+			ps[i].seq = ""
+		}
+	}
+	evals := 2 * k
+	for round := 0; round < rounds; round++ {
+		got := make([]string, k)
+		var wg sync.WaitGroup
+		for i := range scs {
+			wg.Add(1)
+			go func(i int) {
+				defer wg.Done()
+				got[i] = hx.Guard(func() string { return execOnce(scs[i], ps[i].root, ps[i].t).fingerprint() })
+			}(i)
+		}
+		wg.Wait()
+		evals += k
+		for i := range scs {
+			if ps[i].seq != "" && got[i] != ps[i].seq {
+				concDiff = true
+				report(scs[i], map[string]int{"SEQUENTIAL " + ps[i].seq: 1, "CONCURRENT " + got[i]: 1})
+			}
+		}
+	}
+	return evals
+}
+
+var concDiff bool
+
+
+// smallScopeFamily: deterministic, runs before anything random.  One funded sender, every pair of
+// target keys out of {self, SELF in another spelling, other, other without prefix} with every pair
+// of amounts out of {0, 5, 8, everything, everything + 1 wei}.
+func smallScopeFamily() []*Scenario {
+	aa, bb := poolAddrs[0], poolAddrs[1]
+	bal := new(big.Int).Add(e18(10), big.NewInt(1e15)) // 10 RPG + the fee
+	keys := []string{"0x" + aa, "0X" + strings.ToUpper(aa), "0x" + bb, bb}
+	amts := []string{"0", "5", "8", "10", "10.000000000000000001"}
+	var res []*Scenario
+	n := 0
+	for i := 0; i < len(keys); i++ {
+		for j := i + 1; j < len(keys); j++ {
+			for _, x := range amts {
+				for _, y := range amts {
+					n++
+					extra := fmt.Sprintf(`{"%s":{"balance":"%s"},"%s":{"balance":"%s"}}`, keys[i], x, keys[j], y)
+					h := common.Sha256([]byte(extra))
+					res = append(res, &Scenario{Name: fmt.Sprintf("small-%d", n), Height: 100, Flags: "111111", P026: true,
+						Accounts: []Acct{{aa, bal.String(), 0}},
+						Txs:      []TxS{{Source: "0x" + aa, Type: 100, Hash: hex.EncodeToString(h), Extra: extra}}})
+				}
+			}
+		}
+	}
+	return res
+}
+
 func search(a map[string]string, r *hx.Rng) {
 	n := hx.ArgInt(a, "n", 64)
 	cases := hx.ArgInt(a, "cases", 150)
@@ -1733,12 +2242,29 @@ func search(a map[string]string, r *hx.Rng) {
 			outs = append(outs, fmt.Sprintf("%dx %s", v, k))
 		}
 		sort.Strings(outs)
-		viols = append(viols, violation{key, desc, sc, outs})
+		v := violation{key, desc, sc, outs}
+		viols = append(viols, v)
+		// printed and flushed when found: a time-boxed or crashing run still delivers it
+		if j, err := json.Marshal(v); err == nil {
+			fmt.Println("VIOL " + string(j))
+			os.Stdout.Sync()
+		}
 	}
 	// 1. hand-written leads first (DESIGN 6/C01)
 	for _, sc := range leadScenarios() {
 		res := nfold(sc, n)
 		evals += n
+		distinct[sc.Name] = true
+		report(sc, res)
+	}
+	// 1b. the deterministic small-scope family (fewer repetitions each: 150 scenarios)
+	nSmall := n
+	if nSmall > 16 {
+		nSmall = 16
+	}
+	for _, sc := range smallScopeFamily() {
+		res := nfold(sc, nSmall)
+		evals += nSmall
 		distinct[sc.Name] = true
 		report(sc, res)
 	}
@@ -1750,11 +2276,19 @@ func search(a map[string]string, r *hx.Rng) {
 		report(sc, res)
 	}
 	// 3. generated
+	// concurrent executions against sequential ones
+	evals += concurrentBatch(r.Fork(), hx.ArgInt(a, "conc", 8), hx.ArgInt(a, "rounds", 6), report)
 	kinds := map[string]int{}
 	poisonRng = r.Fork()
 	for i := 0; i < cases; i++ {
 		var sc *Scenario
-		if i%4 == 2 {
+		if i%8 == 6 {
+			sc = genHistorical(r, i, false)
+			if r.Bool() {
+				widen(r, sc)
+			}
+			kinds["historical-"+sc.Config]++
+		} else if i%4 == 2 {
 			sc = genScenario(r, i, true)
 			widen(r, sc)
 			forceMinerTxs(r, sc)
@@ -1829,6 +2363,10 @@ func corpusScenarios() []*Scenario {
 
 func main() {
 	a := hx.Args()
+	for _, env := range []string{"mainnet", "robin"} {
+		common.Init(0, "verif.ini", env)
+		histConfigs[env] = common.LocalChainConfig
+	}
 	hxnode.BootServices("dev")
 	core.VerifC01InitLoggers()
 	service.InitRewardCalculator(stubB{}, stubG{}, stubF{})
@@ -1875,6 +2413,9 @@ func main() {
 			emitScenario(out, r, sc)
 		}
 	}
+	for _, sc := range boundaryFamilyCorr() {
+		emitScenario(out, r, sc)
+	}
 	for i := 0; i < n; i++ {
 		switch {
 		case i%10 == 7:
@@ -1884,6 +2425,12 @@ func main() {
 			emitSortOp(out, r)
 		case i%10 == 9:
 			emitMalformed(out, r)
+		case i%10 == 3:
+			sc := genHistorical(r, i, true)
+			applyFlags(sc, sc.Height-1, false)
+			sizes["historical-"+sc.Config]++
+			sizes["historical flags="+sc.Flags]++
+			emitScenario(out, r, sc)
 		default:
 			sc := genScenario(r, i, true)
 			sizes[fmt.Sprintf("txs=%d", len(sc.Txs))]++
